@@ -581,3 +581,36 @@ def group_shape(pattern, flags, name):
         elif op == "LITERAL":
             tail += chr(av)
     return reps, tail
+
+
+def leading_literals(pattern, flags=0, limit=64):
+    """set of literal prefixes P such that every string the regex matches starts with some p in P
+    (literals and alternations of literals are followed; the walk stops at the first other construct)"""
+    if isinstance(pattern, bytes):
+        pattern = pattern.decode("latin-1")
+
+    def walk(seq, prefixes):
+        """-> (prefixes, complete?)"""
+        for op, av in seq:
+            op = str(op)
+            if op == "AT":
+                continue
+            if op == "LITERAL":
+                prefixes = {p + chr(av) for p in prefixes}
+            elif op == "SUBPATTERN":
+                prefixes, done = walk(av[3], prefixes)
+                if not done:
+                    return prefixes, False
+            elif op == "BRANCH":
+                out, alldone = set(), True
+                for alt in av[1]:
+                    p2, done = walk(alt, prefixes)
+                    out |= p2
+                    alldone = alldone and done
+                prefixes = out
+                if not alldone or len(prefixes) > limit:
+                    return prefixes, False
+            else:
+                return prefixes, False
+        return prefixes, True
+    return walk(sp.parse(pattern, flags), {""})[0]
